@@ -54,6 +54,8 @@ var invalidHeaderFields = [...]string{
 func parseHeaders(decodeFn qpack.DecodeFunc, isRequest bool, sizeLimit int, headerFields *[]qpack.HeaderField) (header, error) {
 	hdr := header{Headers: make(http.Header)}
 	var readFirstRegularHeader, readContentLength bool
+	// Pseudo headers are allowed to appear exactly once, even if the first occurrence has an empty value.
+	var readPath, readMethod, readAuthority, readProtocol, readScheme, readStatus bool
 	var contentLengthStr string
 	for {
 		h, err := decodeFn()
@@ -85,22 +87,28 @@ func parseHeaders(decodeFn qpack.DecodeFunc, isRequest bool, sizeLimit int, head
 			var isDuplicatePseudoHeader bool // pseudo headers are allowed to appear exactly once
 			switch h.Name {
 			case ":path":
-				isDuplicatePseudoHeader = hdr.Path != ""
+				isDuplicatePseudoHeader = readPath
+				readPath = true
 				hdr.Path = h.Value
 			case ":method":
-				isDuplicatePseudoHeader = hdr.Method != ""
+				isDuplicatePseudoHeader = readMethod
+				readMethod = true
 				hdr.Method = h.Value
 			case ":authority":
-				isDuplicatePseudoHeader = hdr.Authority != ""
+				isDuplicatePseudoHeader = readAuthority
+				readAuthority = true
 				hdr.Authority = h.Value
 			case ":protocol":
-				isDuplicatePseudoHeader = hdr.Protocol != ""
+				isDuplicatePseudoHeader = readProtocol
+				readProtocol = true
 				hdr.Protocol = h.Value
 			case ":scheme":
-				isDuplicatePseudoHeader = hdr.Scheme != ""
+				isDuplicatePseudoHeader = readScheme
+				readScheme = true
 				hdr.Scheme = h.Value
 			case ":status":
-				isDuplicatePseudoHeader = hdr.Status != ""
+				isDuplicatePseudoHeader = readStatus
+				readStatus = true
 				hdr.Status = h.Value
 				isResponsePseudoHeader = true
 			default:
